@@ -247,9 +247,13 @@ def make_bounds(rng, v, cls, allow_phys, inherited):
             lo = base
             if float(hi) <= float(lo):
                 hi = top
-    lo, hi = lengthen(rng, lo, cls), (hi if (top is not None and float(hi) == float(top)) else lengthen(rng, hi, cls))
+    lo0, hi0 = lo, hi
+    if not (ph and ph.lo is not None and float(lo) == float(ph.lo)) and not lo.startswith("-"):
+        lo = lengthen(rng, lo, cls)
+    if not (top is not None and float(hi) == float(top)) and not hi.startswith("-"):
+        hi = lengthen(rng, hi, cls)
     if float(lo) > float(hi) or (top is not None and float(hi) > float(top)):
-        lo, hi = base if (ph and ph.lo is not None) else lo.split(".")[0], hi.split(".")[0] if top is None else top
+        lo, hi = lo0, hi0
     v.bounds = Bnd(lo if want_lo else None, hi if want_hi else None)
 
 
